@@ -445,6 +445,7 @@ package evaluator
 //@   ensures[C02] case.TrimSpaceRight: isType(node, "*parser.TrimSpaceRightNode") && err == nil ==> (exists a_arg Val :: isEv(e.root, as(node, "parser.TrimSpaceRightNode").Argument, current, variables, a_arg) && returns("evaluator.trimSpaceRight", a_arg, result, err))
 //@   ensures[C02] case.Type: isType(node, "*parser.TypeNode") && err == nil ==> (exists a_arg Val :: isEv(e.root, as(node, "parser.TypeNode").Argument, current, variables, a_arg) && returns("evaluator.typeName", a_arg, result, err))
 //@   ensures[C02] case.Upper: isType(node, "*parser.UpperNode") && err == nil ==> (exists a_arg Val :: isEv(e.root, as(node, "parser.UpperNode").Argument, current, variables, a_arg) && returns("evaluator.upper", a_arg, result, err))
+//@   ensures[C02 C08] case.Zip: isType(node, "*parser.ZipNode") && err == nil ==> isArr(result) && (forall k Int :: 0 <= k && k < len(as(node, "parser.ZipNode").Arguments) ==> (exists a Val :: isArr(a) && isEv(e.root, as(node, "parser.ZipNode").Arguments[k], current, variables, a) && len(arr(result)) <= len(arr(a))))
 //@   ensures[C02] case.Values: isType(node, "*parser.ValuesNode") && err == nil ==> (exists a_arg Val :: isEv(e.root, as(node, "parser.ValuesNode").Argument, current, variables, a_arg) && returns("evaluator.values", a_arg, result, err))
 
 //@ func evaluator.projectArray
@@ -622,6 +623,7 @@ package evaluator
 //@   loop 9
 //@     invariant len(values) == len(node.Arguments) && fresh(values) && 0 <= count && (iter >= 1 ==> count <= MaxAlloc)
 //@     invariant forall k Int :: 0 <= k && k < iter ==> count <= len(values[k])
+//@     invariant[C02 C08] args: forall k Int :: 0 <= k && k < iter ==> isEv(e.root, node.Arguments[k], current, variables, mkArr(values[k]))
 //@   loop 10
 //@     decreases count - i
 //@     invariant 0 <= i && i <= count && len(results) == count && fresh(results) && len(values) == len(node.Arguments) && fresh(values)
